@@ -30,6 +30,46 @@ CHECKS = {
         note="As C01; outputs are compared after reshaping to the documented shape."),
 }
 
+CHECKS.update({
+    "C08": dict(
+        technique="TLA+ refinement EvalCache => PygomModel checked by TLC (with negative control); TLC-generated "
+                  "behaviours (exhaustive directed family + simulation) replayed into a live SimulateOde",
+        level="model_checking",
+        text="TLC checks for every interleaving of 6 mutator kinds and 4 evaluators that the canary design returns the "
+             "current definition version (and finds the stale read when add_ode does not trip).  The code is bound at "
+             "the abstract level: PygomModel behaviours carry the expected normal form of every evaluation; an "
+             "exhaustive directed family [bind; evaluate e; one mutation of any kind by any route; evaluate e] covers "
+             "all 88 (mutator kind, evaluator) pairs, simulation adds long mixed histories; every evaluation is "
+             "compared with the carried normal form and with a freshly constructed model.",
+        design="5 C08, 3.4",
+        note="Evaluators are the 11 canary-tracked ones; evaluation is compared only where every declared parameter "
+             "is bound; lambda back-end for all behaviours, default Cython back-end for a few."),
+    "C09": dict(
+        technique="TLA+ spec ParamBind explored exhaustively by TLC; every generated assignment history replayed "
+                  "into a fresh model",
+        level="model_checking",
+        text="Every history of parameter assignments up to the bound (all accepted forms, every permutation of "
+             "(name, value) pairs, every subset of a partial dict with str or Symbol keys, every rejection kind) is "
+             "enumerated by TLC with BoundToName / RejectedBindsNothing / PartialKeepsOthers checked, and each "
+             "maximal history is performed on a real model whose rate vector theta_k * X_k exposes each binding; "
+             "longer histories by simulation.",
+        design="5 C09, 3.3",
+        note="The bare-number form of one-parameter models is not in the property's list of accepted forms (and "
+             "raises TypeError on the pinned tree); it is specified but not judged.  Duplicate names in a pair list "
+             "are outside the quantifier."),
+    "C12": dict(
+        technique="TLA+ spec ModelDef (ghost process multiset, route-independence invariants) checked by TLC; all "
+                  "visited histories replayed into PyGOM; TLC oracle for random route/order variants",
+        level="model_checking",
+        text="TLC checks InvRouteIndependent / InvVRRouteIndependent over every route assignment and order in small "
+             "scope; every visited live state (Event, Transition-as-event, Event whose transition carries the rate, "
+             "legacy lists, births by origin or destination, explicit ODE terms, constructor vs add_*) is replayed "
+             "into a real SimulateOde and compared; random full-size process sets are built in several random "
+             "variants each and compared with the ODE the specification derives for the process set.",
+        design="5 C12, 3.2",
+        note="As C01."),
+})
+
 NOT_APPLICABLE = {
     "C14": "stateless real-valued kernels (log/lgamma): no transitions or histories for a TLA+ model to decide; "
            "the decisive comparison is floating-point agreement with reference densities, a different technique "
